@@ -93,6 +93,7 @@ type travWorld struct {
 	allHonest     bool
 	returns       int       // DoQuery calls that have returned
 	stopCalledW   bool      // copy of stopCalled readable by the watcher (under mu)
+	apiGen        int       // bumped whenever the return of an AddNodes/AddNode call is recorded
 	lastHit       *stallHit // what a blocked consumer saw at the instant it received the stall signal
 }
 
@@ -528,6 +529,7 @@ func trav(r *Run, focus string) {
 				tw.learn(a)
 				tw.apiLearned[a.Addr.String()] = true
 			}
+			tw.apiGen++
 			tw.apiBusy--
 			tw.mu.Unlock()
 			return n
@@ -612,9 +614,14 @@ func trav(r *Run, focus string) {
 				//
 				// The snapshot must describe the instant the signal was observed. The harness
 				// records "this AddNodes call has returned" under tw.mu, so the signal is
-				// tested (without blocking) under tw.mu too: whatever is recorded as handed
-				// over had really been handed over before the test.
+				// tested without blocking and bracketed by reads of the hand-over counter:
+				// whatever is recorded as handed over had really been handed over before the test.
+				// (Not by holding tw.mu across the call into real code — that call may park at
+				// a scheduling point — but by checking afterwards that no hand-over was
+				// recorded in between, and retrying if one was.)
 				tw.mu.Lock()
+				gen := tw.apiGen
+				tw.mu.Unlock()
 				got := false
 				select {
 				case <-op.Stalled():
@@ -622,6 +629,11 @@ func trav(r *Run, focus string) {
 				default:
 				}
 				if got {
+					tw.mu.Lock()
+					if tw.apiGen != gen {
+						tw.mu.Unlock()
+						continue // a hand-over was recorded meanwhile: observe again
+					}
 					if tw.stopCalledW {
 						tw.mu.Unlock()
 						watchClosed.Store(true)
@@ -630,7 +642,6 @@ func trav(r *Run, focus string) {
 					snapshot()
 					tw.mu.Unlock()
 				} else {
-					tw.mu.Unlock()
 					// wait for the next change; a received value is the signal itself
 					// (value style), a closed channel is re-tested under the lock
 					select {
